@@ -10,6 +10,10 @@ import (
 
 var _ gqlerror.List
 
+// nonvacuous(err): err is nil or does not format to nothing (an empty error list would be
+// dropped by the fan-out helper and by FormatError).
+//@ define nonvacuous(err error) bool = !(is(err, ErrorList) && len(err.(ErrorList)) == 0) && !(is(err, gqlerror.List) && len(err.(gqlerror.List)) == 0)
+
 //@ func NewError
 //@ props C07 C10
 //@ requires err != nil
